@@ -117,6 +117,7 @@ def case(spec):
     maxpos = max([1.0] + [abs(v) for x in pos.values() for v in x])
     # reference: pre-trade value of date t from the end-of-date rows of t-1 and the prices of t
     first_neg = None
+    knife_edge = None
     for t in range(1, nd):
         v = sum(c[t - 1] for c in cash.values())
         for x in secs:
@@ -128,6 +129,8 @@ def case(spec):
         if v < -tol:
             first_neg = (t, v)
             break
+        if abs(v) <= tol and knife_edge is None:
+            knife_edge = (t, v)  # worth exactly nothing up to float dust: either verdict is right
     spy_root_dates = [d for (tgt, name, d) in SPYLOG if tgt.root is root]
     flagged = bool(root.bankrupt)
     is_fi = bool(root.fixed_income)
@@ -137,6 +140,8 @@ def case(spec):
         if all(abs(pos[x.full_name][t]) <= 1e-9 * maxpos for x in secs if t < len(pos[x.full_name])) and any(abs(pos[x.full_name][t - 1]) > 1e-9 * maxpos for x in secs if t - 1 < len(pos[x.full_name])):
             flat_from = t
             break
+    if knife_edge is not None and bool(root.bankrupt) and (first_neg is None or knife_edge[0] < first_neg[0]) and flat_from == knife_edge[0]:
+        first_neg = knife_edge  # the library read the dust as negative: judged as a bankruptcy of that date
     if is_fi:
         if flagged:
             viols.append({"rule": "fi_never_flagged", "expected": False, "observed": True})
